@@ -1,7 +1,7 @@
 //! Native replays of solver counterexamples against the REAL /repo build (real dependencies).
 //! Usage: ocv-replay <case> <args...>; prints one JSON object on stdout.
 use open_coroutine_core::syscall;
-use std::ffi::c_int;
+use std::ffi::{c_int, c_void};
 use std::time::Instant;
 
 fn errno() -> c_int {
@@ -24,6 +24,96 @@ extern "C" fn mock_select(
     0
 }
 
+// ---------------------------------------------------------------- scripted kernel for socket I/O
+#[derive(Copy, Clone, Debug)]
+enum Resp {
+    Data(usize),
+    Eagain,
+    Eintr,
+    Reset,
+    Eof,
+}
+static mut SCRIPT: Vec<Resp> = Vec::new();
+static mut CALLS: usize = 0;
+static mut MOVED: usize = 0;
+static mut STREAM: [u8; 64] = [0; 64];
+static mut SINK: [u8; 64] = [0; 64];
+static mut LAST_ERRNO: c_int = 0;
+static mut RANGES: Vec<(usize, usize)> = Vec::new();
+
+#[allow(static_mut_refs)]
+unsafe fn next() -> Resp {
+    let i = CALLS;
+    CALLS += 1;
+    SCRIPT.get(i).copied().unwrap_or(Resp::Reset)
+}
+unsafe fn fail(e: c_int) -> libc::ssize_t {
+    LAST_ERRNO = e;
+    syscall::set_errno(e);
+    -1
+}
+#[allow(static_mut_refs)]
+unsafe fn kernel_read(buf: *mut u8, len: usize) -> libc::ssize_t {
+    RANGES.push((buf as usize, len));
+    match next() {
+        Resp::Data(n) => {
+            let n = n.min(len);
+            for i in 0..n {
+                *buf.add(i) = STREAM[MOVED + i];
+            }
+            MOVED += n;
+            n as libc::ssize_t
+        }
+        Resp::Eagain => fail(libc::EAGAIN),
+        Resp::Eintr => fail(libc::EINTR),
+        Resp::Reset => fail(libc::ECONNRESET),
+        Resp::Eof => 0,
+    }
+}
+#[allow(static_mut_refs)]
+unsafe fn kernel_write(buf: *const u8, len: usize) -> libc::ssize_t {
+    RANGES.push((buf as usize, len));
+    match next() {
+        r @ (Resp::Data(_) | Resp::Eof) => {
+            let n = match r { Resp::Data(n) => n.min(len), _ => len.min(1) };
+            for i in 0..n {
+                SINK[MOVED + i] = *buf.add(i);
+            }
+            MOVED += n;
+            n as libc::ssize_t
+        }
+        Resp::Eagain => fail(libc::EAGAIN),
+        Resp::Eintr => fail(libc::EINTR),
+        _ => fail(libc::ECONNRESET),
+    }
+}
+extern "C" fn m_read(_fd: c_int, b: *mut c_void, l: libc::size_t) -> libc::ssize_t { unsafe { kernel_read(b.cast(), l) } }
+extern "C" fn m_recv(_fd: c_int, b: *mut c_void, l: libc::size_t, _f: c_int) -> libc::ssize_t { unsafe { kernel_read(b.cast(), l) } }
+extern "C" fn m_write(_fd: c_int, b: *const c_void, l: libc::size_t) -> libc::ssize_t { unsafe { kernel_write(b.cast(), l) } }
+extern "C" fn m_send(_fd: c_int, b: *const c_void, l: libc::size_t, _f: c_int) -> libc::ssize_t { unsafe { kernel_write(b.cast(), l) } }
+
+fn parse_script(args: &[String]) -> Vec<Resp> {
+    args.iter()
+        .map(|a| match a.as_bytes()[0] {
+            b'd' => Resp::Data(a[1..].parse().expect("dN")),
+            b'a' => Resp::Eagain,
+            b'i' => Resp::Eintr,
+            b'r' => Resp::Reset,
+            b'e' => Resp::Eof,
+            _ => panic!("bad script item {a}"),
+        })
+        .collect()
+}
+
+fn socketpair(blocking: bool) -> (c_int, c_int) {
+    let mut fds = [0 as c_int; 2];
+    assert_eq!(0, unsafe { libc::socketpair(libc::AF_UNIX, libc::SOCK_STREAM, 0, fds.as_mut_ptr()) });
+    if !blocking {
+        syscall::set_non_blocking(fds[0]);
+    }
+    (fds[0], fds[1])
+}
+
 fn main() {
     let args: Vec<String> = std::env::args().collect();
     let case = args.get(1).map(String::as_str).unwrap_or("");
@@ -38,6 +128,103 @@ fn main() {
             let r = syscall::select(Some(&f), 0, std::ptr::null_mut(), std::ptr::null_mut(), std::ptr::null_mut(), &raw mut tv);
             let e = errno();
             println!("{{\"ret\": {r}, \"errno\": {e}, \"elapsed_us\": {}}}", t0.elapsed().as_micros());
+        }
+        // io <read|recv|write|send> <len> <blocking 0|1> <script...>: one hooked single-buffer call on a real
+        // socketpair descriptor with a scripted kernel in place of libc
+        "io" => {
+            init_event_loops();
+            let entry = args[2].as_str();
+            let len = num(3) as usize;
+            let blocking = num(4) != 0;
+            #[allow(static_mut_refs)]
+            unsafe {
+                SCRIPT = parse_script(&args[5..]);
+                for i in 0..64 {
+                    STREAM[i] = 0xA0 + i as u8;
+                }
+            }
+            let (fd, _peer) = socketpair(blocking);
+            let mut buf = [0x11u8; 64];
+            for (i, b) in buf.iter_mut().enumerate() {
+                *b = 0x40 + i as u8;
+            }
+            let p = buf.as_mut_ptr().cast::<c_void>();
+            let t0 = Instant::now();
+            let r = match entry {
+                "read" => { let f: extern "C" fn(c_int, *mut c_void, libc::size_t) -> libc::ssize_t = m_read; syscall::read(Some(&f), fd, p, len) }
+                "recv" => { let f: extern "C" fn(c_int, *mut c_void, libc::size_t, c_int) -> libc::ssize_t = m_recv; syscall::recv(Some(&f), fd, p, len, 0) }
+                "write" => { let f: extern "C" fn(c_int, *const c_void, libc::size_t) -> libc::ssize_t = m_write; syscall::write(Some(&f), fd, p.cast_const(), len) }
+                "send" => { let f: extern "C" fn(c_int, *const c_void, libc::size_t, c_int) -> libc::ssize_t = m_send; syscall::send(Some(&f), fd, p.cast_const(), len, 0) }
+                _ => panic!("bad entry"),
+            };
+            let e = errno();
+            let still_blocking = syscall::is_blocking(fd);
+            #[allow(static_mut_refs)]
+            unsafe {
+                println!(
+                    "{{\"ret\": {r}, \"errno\": {e}, \"moved\": {}, \"calls\": {}, \"last_errno\": {}, \"blocking_after\": {}, \"elapsed_us\": {}, \"buf\": {:?}, \"sink\": {:?}}}",
+                    MOVED, CALLS, LAST_ERRNO, still_blocking, t0.elapsed().as_micros(), &buf[..8], &SINK[..8]
+                );
+            }
+        }
+        // wake_latency <trials> <delay_us>: a coroutine blocks in a hooked recv on a socket; the peer writes
+        // `delay_us` after the coroutine started waiting. Prints the latency seen by the coroutine per trial.
+        "wake_latency" => {
+            use std::sync::atomic::{AtomicU64, Ordering};
+            static STARTED: AtomicU64 = AtomicU64::new(0);
+            init_event_loops();
+            let trials = num(2) as usize;
+            let delay = std::time::Duration::from_micros(num(3) as u64);
+            let mut lat = Vec::new();
+            for _ in 0..trials {
+                let (fd, peer) = socketpair(true);
+                STARTED.store(0, Ordering::SeqCst);
+                let h = open_coroutine_core::net::EventLoops::submit_task(
+                    None,
+                    move |_| {
+                        let mut b = [0u8; 1];
+                        let t0 = Instant::now();
+                        STARTED.store(1, Ordering::SeqCst);
+                        let r = syscall::recv(None, fd, b.as_mut_ptr().cast(), 1, 0);
+                        assert_eq!(r, 1);
+                        Some(t0.elapsed().as_micros() as usize)
+                    },
+                    None,
+                    None,
+                );
+                while STARTED.load(Ordering::SeqCst) == 0 {
+                    std::thread::yield_now();
+                }
+                std::thread::sleep(delay);
+                assert_eq!(1, unsafe { libc::write(peer, [7u8].as_ptr().cast(), 1) });
+                let r = h.timeout_join(std::time::Duration::from_secs(5)).expect("join").expect("task");
+                lat.push(r.unwrap_or(0));
+                // hooked close (what an application under the hook does), so that the runtime drops its interest
+                assert_eq!(0, syscall::close(None, fd));
+                unsafe {
+                    libc::close(peer);
+                }
+            }
+            println!("{{\"delay_us\": {}, \"latency_us\": {:?}}}", delay.as_micros(), lat);
+        }
+        // local_drop <n>: store n values with a counting destructor in a coroutine-local, drop the local
+        "local_drop" => {
+            use std::sync::atomic::{AtomicUsize, Ordering};
+            static DROPS: AtomicUsize = AtomicUsize::new(0);
+            struct V(#[allow(dead_code)] u8);
+            impl Drop for V {
+                fn drop(&mut self) {
+                    _ = DROPS.fetch_add(1, Ordering::SeqCst);
+                }
+            }
+            let n = num(2) as usize;
+            let keys = ["a", "b", "c", "d"];
+            let local = open_coroutine_core::coroutine::local::CoroutineLocal::default();
+            for k in keys.iter().take(n) {
+                assert!(local.put(k, V(1)).is_none());
+            }
+            drop(local);
+            println!("{{\"stored\": {n}, \"dropped\": {}}}", DROPS.load(Ordering::SeqCst));
         }
         _ => {
             eprintln!("unknown case {case}");
